@@ -38,7 +38,7 @@ open Ecal.C08 Ecal.Gen.C08
 theorem gen_shape_ok : shapeOk = true := by decide
 
 /-- The real table has the operators the model talks about (non-vacuity of everything below). -/
-theorem gen_table_nonempty : infixOps.length ≥ 19 ∧ prefixOps.length = 3 ∧ prefixOffset = 20 := by decide
+theorem gen_table_nonempty : infixOps.length ≥ 19 ∧ prefixOps.length = 9 ∧ prefixOffset = 20 := by decide
 
 /-- On every pair of operator heads of the real table and every child index, the expression-level
     rule `nb` is the rule extracted from prettyprinter.go. -/
